@@ -507,6 +507,12 @@ func (c *Collection) Find(ctx context.Context, filter interface{}, opts ...*opti
 		if err != nil {
 			return nil, err
 		}
+
+		// check projection
+		err = checkProjection(projection)
+		if err != nil {
+			return nil, err
+		}
 	}
 
 	// get skip
@@ -596,6 +602,12 @@ func (c *Collection) FindOne(ctx context.Context, filter interface{}, opts ...*o
 		if err != nil {
 			return &SingleResult{err: err}
 		}
+
+		// check projection
+		err = checkProjection(projection)
+		if err != nil {
+			return &SingleResult{err: err}
+		}
 	}
 
 	// find documents
@@ -654,6 +666,12 @@ func (c *Collection) FindOneAndDelete(ctx context.Context, filter interface{}, o
 	var projection bsonkit.Doc
 	if opt.Projection != nil {
 		projection, err = bsonkit.Transform(opt.Projection)
+		if err != nil {
+			return &SingleResult{err: err}
+		}
+
+		// check projection
+		err = checkProjection(projection)
 		if err != nil {
 			return &SingleResult{err: err}
 		}
@@ -731,6 +749,12 @@ func (c *Collection) FindOneAndReplace(ctx context.Context, filter, replacement 
 	var projection bsonkit.Doc
 	if opt.Projection != nil {
 		projection, err = bsonkit.Transform(opt.Projection)
+		if err != nil {
+			return &SingleResult{err: err}
+		}
+
+		// check projection
+		err = checkProjection(projection)
 		if err != nil {
 			return &SingleResult{err: err}
 		}
@@ -840,6 +864,12 @@ func (c *Collection) FindOneAndUpdate(ctx context.Context, filter, update interf
 	var projection bsonkit.Doc
 	if opt.Projection != nil {
 		projection, err = bsonkit.Transform(opt.Projection)
+		if err != nil {
+			return &SingleResult{err: err}
+		}
+
+		// check projection
+		err = checkProjection(projection)
 		if err != nil {
 			return &SingleResult{err: err}
 		}
